@@ -14,6 +14,8 @@ def check(ctx):
         "extracted context can carry survives encode -> decode); R6 setting a span as local parent opens a scope on every path, "
         "also for a span of an unsampled trace (current_local_parent() must answer that span with sampled = false, not the "
         "enclosing scope's parent).")
+    ctx.explanation += (" R8 the scope bundle (C10's rules): scopes opened on every path and refused only when the stack is full, released "
+                        "scopes popped with nothing left behind, the stack looked at from its top only and the only per-thread context.")
     ctx.not_decided = ("that the delivered child record carries that parent for every program point (composition of "
                        "C02/C11 rules); the W3C text round trip is C12.")
     facts = ctx.facts("E")
@@ -35,3 +37,6 @@ def check(ctx):
     scopes.rule_scope_always_opened(ctx, facts, "R6")
     scopes.rule_span_lines_innermost_only(ctx, facts, "R7")
     codec.rule_values_not_tested(ctx, facts, "R5")
+    # what "the local parent in effect" needs from the scope stack (see props/common.py)
+    from .common import scope_bundle
+    scope_bundle(ctx, ctx.facts("E"), "R8")
